@@ -11,6 +11,9 @@ for p in seeds:
     if only and sid not in only:
         continue
     meta = json.load(open(os.path.join(os.path.dirname(p), "meta.json")))
+    if meta.get("obsolete_since"):
+        print(f"{sid}: obsolete since {meta['obsolete_since'][:7]} (skipped)")
+        continue
     subprocess.run(["git", "-C", "/repo", "apply", p], check=True)
     try:
         hits = {}
